@@ -11,6 +11,7 @@ package main
 import (
 	"fmt"
 	"go/types"
+	"regexp"
 	"strings"
 )
 
@@ -18,6 +19,7 @@ type quantAssumed struct {
 	guard string // guard under which the clause was assumed
 	hole  string // placeholder constant standing for the bound variable
 	body  string // instance template (range constraints included)
+	sort  string // SMT sort of the bound variable
 }
 
 // noteQuantAssumed records an assumed clause if it has the supported shape.
@@ -44,12 +46,13 @@ func (g *fgen) noteQuantAssumed(env *cenv, c clause, guard string) {
 		return
 	}
 	t, err := g.resolveType(q.vars[0].typ, env.pkg)
-	if err != nil || g.sortOf(t) != "Int" {
+	if err != nil {
 		return
 	}
+	srt := g.sortOf(t)
 	g.nfresh++
-	hole := fmt.Sprintf("qi!hole!%d", g.nfresh)
-	inner := env.with(map[string]val{q.vars[0].name: {hole, t, "Int"}})
+	hole := fmt.Sprintf("q!hole!%d", g.nfresh)
+	inner := env.with(map[string]val{q.vars[0].name: {hole, t, srt}})
 	var parts []string
 	for _, p := range pre {
 		parts = append(parts, env.bool(p))
@@ -57,12 +60,45 @@ func (g *fgen) noteQuantAssumed(env *cenv, c clause, guard string) {
 	if _, isB := t.Underlying().(*types.Basic); isB {
 		parts = append(parts, g.wf(hole, t, "", 0))
 	}
-	body := implies(and(parts...), inner.bool(q.body))
-	qa := quantAssumed{guard: guard, hole: hole, body: body}
+	var qside []string
+	inner.qside = &qside
+	inner.qbind = append(append([]string{}, env.qbind...), fmt.Sprintf("(%s %s)", hole, srt))
+	ib := inner.bool(q.body)
+	// loads under the binder are well formed (memory-model invariant): part of every
+	// instance
+	body := implies(and(parts...), and(append(qside, ib)...))
+	qa := quantAssumed{guard: guard, hole: hole, body: body, sort: srt}
 	g.quantReqs = append(g.quantReqs, qa)
-	for _, t := range g.instTerms {
-		g.fact(qa.guard, strings.ReplaceAll(qa.body, qa.hole, t))
+	if srt == "Int" {
+		for _, t := range g.instTerms {
+			g.fact(qa.guard, strings.ReplaceAll(qa.body, qa.hole, t))
+		}
 	}
+}
+
+var reGoalForall = regexp.MustCompile(`^\(forall \(\(([A-Za-z0-9_!]+) ([A-Za-z]+)\)\) `)
+
+// skolemizeGoal: a goal of the form (forall ((x S)) body) is proved for a fresh
+// constant, and every assumed single-variable universal clause over the same sort is
+// instantiated at that constant (logical consequences, emitted as facts).
+func (g *fgen) skolemizeGoal(goal string) string {
+	m := reGoalForall.FindStringSubmatch(goal)
+	if m == nil || !strings.HasSuffix(goal, ")") {
+		return goal
+	}
+	v, srt := m[1], m[2]
+	body := goal[len(m[0]) : len(goal)-1]
+	if !balanced(body) {
+		return goal
+	}
+	sk := g.fresh("sk", srt)
+	body = strings.ReplaceAll(body, v, sk)
+	for _, qa := range g.quantReqs {
+		if qa.sort == srt {
+			g.fact(qa.guard, strings.ReplaceAll(qa.body, qa.hole, sk))
+		}
+	}
+	return body
 }
 
 // instantiateAt emits the instances of the recorded clauses at index term t.
@@ -76,6 +112,8 @@ func (g *fgen) instantiateAt(t string) {
 	g.instDone[t] = true
 	g.instTerms = append(g.instTerms, t)
 	for _, qa := range g.quantReqs {
-		g.fact(qa.guard, strings.ReplaceAll(qa.body, qa.hole, t))
+		if qa.sort == "Int" {
+			g.fact(qa.guard, strings.ReplaceAll(qa.body, qa.hole, t))
+		}
 	}
 }
